@@ -12,7 +12,7 @@ import (
 
 func init() {
 	register(&Rule{Name: "err.flow", Floor: 900,
-		Doc: "every error produced by a call in zrnt is returned, wrapped into a returned error, forwarded as the trailing argument of an As*/proxy call, or tested and made to end the path with a non-success result; it is not discarded, overwritten before being tested, answered with a success return, and the value that came with it is not indexed/dereferenced before the test (listed idioms and reasoned exceptions apart)",
+		Doc: "every error produced by a call in zrnt is returned, wrapped into a returned error, forwarded as the trailing argument of an As*/proxy call, or tested and made to end the path with a non-success result; it is not discarded, overwritten before being tested, answered with a success return (an error that is looked at elsewhere — in a loop condition, at the top of the next round, after the enclosing block — is followed on the control-flow graph under the assumption that it is non-nil: every path must end in a return that hands it on), and the value that came with it is not indexed/dereferenced before the test (listed idioms and reasoned exceptions apart)",
 		Run: ruleErrFlow})
 	register(&Rule{Name: "ctx.poll", Floor: 25,
 		Doc: "every ctx.Err() poll is tested and its non-nil value is returned (as is or wrapped) on that branch; ctx is used for nothing but Err() and being passed on",
